@@ -11,6 +11,8 @@
 (*    h  = f1 + f2              diamond                                                                *)
 (*    r  = min(f2, 5) / 10      transition probability driven by a function, limits                    *)
 (*    m  data transition rate, targeted by a program while start <= t <= stop                          *)
+(*    km = m / 2                transition probability that is a function of the program-targeted m only: *)
+(*                              it follows the program outcome of m in the same step, not m's data value    *)
 (* Value(p, k) = Clip( ProgramOrElse( FunctionOrElse( Interp(data, T(k)) * y * meta ) ) ), with the     *)
 (* dependencies read after their own clip at the same k; a parameter scenario on f1 suspends its        *)
 (* function from the first overwrite year on (the scenario values, scaled like data, are used there).   *)
@@ -56,18 +58,21 @@ M(c, k) == LET p == c.prog IN
            IF p[1] /\ p[2] <= k /\ k <= p[3]
            THEN Clip(RDiv(RAdd(p[6], RMul(p[4], RSub(p[5], p[6]))), Dt), <<Zero, <<3,2>>>>)        \* single-program outcome, per-year conversion, limits
            ELSE Clip(MData, <<Zero, <<3,2>>>>)
+KM(c, k) == Clip(RDiv(M(c, k), <<2,1>>), <<Zero, One>>)
 Init == case = <<>> /\ obs = ""
 Pick == /\ case = <<>>
         /\ \E d \in DataPatterns, f \in Factors, l \in Limits, p \in Programs, s \in Scenarios :
               LET c == [data |-> d, fac |-> f, lim |-> l, prog |-> p, scen |-> s] IN
               /\ case' = c
               /\ obs' = ToJson([case |-> c, dt |-> Dt, k |-> K,
-                                vals |-> [k \in 0..(K-1) |-> [base |-> Base(c, k), f1 |-> F1(c, k), f2 |-> F2(c, k), h |-> H(c, k), r |-> Rr(c, k), m |-> M(c, k)]]])
+                                vals |-> [k \in 0..(K-1) |-> [base |-> Base(c, k), f1 |-> F1(c, k), f2 |-> F2(c, k), h |-> H(c, k), r |-> Rr(c, k), m |-> M(c, k), km |-> KM(c, k)]]])
 Spec == Init /\ [][Pick]_vars
 \* every value that drives a flow or a dependent parameter lies inside its limits
 InLimits == case # <<>> => \A k \in 0..(K-1) :
      /\ (case.lim[1] = None \/ RLe(case.lim[1], F1(case, k))) /\ (case.lim[2] = None \/ RLe(F1(case, k), case.lim[2]))
      /\ RLe(Zero, Rr(case, k)) /\ RLe(Rr(case, k), <<2,5>>) /\ RLe(Zero, M(case, k)) /\ RLe(M(case, k), <<3,2>>)
+\* a function of a program-targeted parameter sees the program's value: while the program is active km is half the outcome-driven m
+FollowsProgram == case # <<>> => \A k \in 0..(K-1) : KM(case, k) = RMin(RDiv(M(case, k), <<2,1>>), One)
 \* outside the program window the targeted data parameter has its data value; at an entered year the data value is exact
 DataExact == case # <<>> => \A k \in 0..(K-1) : (~IsAssumption(case.data) /\ T(k) \in Times(case.data)) => Base(case, k) = RMul(RMul(At(case.data, T(k)), case.fac[1]), case.fac[2])
 ====
